@@ -349,6 +349,26 @@ def r1_area(ctx):
             car = [av for av, nm, a in top_atoms(body) if nm == "carried"]
             if len(car) == 1 and not find_atoms(body - car[0], lambda n, a: n == "carried"):
                 st = (car[0], None, body)
+        scalar = None
+        if st is not None and len(chain) == 1 and not ga["vector"] and israt(st[2]):
+            # one curve at a time: acc[j] <- (a scalar that starts from 0 and receives the areas of all segments of column j in an inner loop)
+            chain2, inner = _unwrap_loops(st[2])
+            car = [av for av, nm, a in top_atoms(inner) if nm == "carried"] if chain2 and israt(inner) else []
+            if len(car) == 1 and not find_atoms(inner - car[0], lambda n, a: n == "carried"):
+                start = un(car[0], "carried")[0]
+                scalar = (israt(start) and const_of(start) == 0, inner - car[0], chain + chain2)
+        if scalar is not None:
+            old, jx, val = st
+            inc = scalar[1]
+            clean = not find_atoms(inc, lambda n, a: n in ("carried", "loopres", "store"))
+            inloops = {S._key(k) for k, _ in scalar[2]}
+            accs[arm] = (scalar[0], eq(jx, ga["col"]), clean, S._key(ga["seg"].k) in inloops and ga["colloop"] is not None and S._key(ga["colloop"].k) in inloops,
+                         next((c.node for c in Ra.cells if eq(c.new, body)), ga["seg"].node))
+            incs[arm] = inc
+            ts = [t for t in Ra.sh.tests if t[3] and israt(t[0]) and t[1] is not None and not (is_sym(t[0], "True") or is_sym(t[0], "False")) and _leaves_undecided(Ra, t[0])]
+            keys = {S._key(t[0]) for t in ts}
+            tests[arm] = ts[0] if len(keys) == 1 else None
+            continue
         if st is None or len(chain) < (1 if ga["vector"] else 2):
             if israt(rv) and not _undecided([rv]) and not find_atoms(rv, lambda n, a: n in ("loopres", "carried") or n.startswith("call:") or n == "apply"):
                 ctx.fail("area: segment areas are accumulated per column, starting from zero (additivity over segments): acc[j] <- acc[j] + area(segment, column j)", Ra.ret_node(),
